@@ -172,12 +172,9 @@ void __wrap_free(void* p) {
 void* __wrap_edn_arena_alloc(edn_arena_t* a, size_t n) {
     if (vf_should_fail('a', n))
         return NULL;
-    /* the slow path's malloc must not be counted as a separate request */
-    int save = vf_active;
-    vf_active = 0;
-    void* p = __real_edn_arena_alloc(a, n);
-    vf_active = save;
-    return p;
+    /* a malloc made by the slow path (new block) is a request of its own: it can fail while
+     * the arena code around it keeps running */
+    return __real_edn_arena_alloc(a, n);
 }
 #endif
 
@@ -935,7 +932,8 @@ static void cmd_num(char* args) {
         size_t n;
         unsigned char* b = unhex(hex, &n);
         placed_t p = place_input(b, n ? n : 1);
-        double d = parse_double_from_buffer(p.ptr, p.ptr + n);
+        bool dbl_oom = false;
+        double d = parse_double_from_buffer(p.ptr, p.ptr + n, &dbl_oom);
         uint64_t u;
         memcpy(&u, &d, 8);
         if (isnan(d))
